@@ -110,6 +110,31 @@ func checkCompareCore(c *Check, w *World, tb *TB, pfx string, entry *ssa.Functio
 			}
 		}
 		c.Decide(okEq && nAcc > 0, pfx+".6", fn, "compare-result", "acceptance only where ConstantTimeCompare(...) == 1 holds", "a 'true' verdict is returned where the comparison result is not known to be 1 (or never)", w.InstrPos(h.Call))
+		// … and only where the derivation succeeded: a failed derivation yields an empty string, which an empty
+		// submitted code would match
+		if dt := expT.Args[0]; dt.Op == "extract" && dt.Sym == "0" && len(dt.Args) == 1 {
+			if dv, isV := dt.Args[0].Val.(ssa.Value); isV && dv != nil {
+				if di, isI := dv.(ssa.Instruction); isI && dv.Referrers() != nil {
+					var errV ssa.Value
+					for _, r := range *dv.Referrers() {
+						if ex, ok := r.(*ssa.Extract); ok && ex.Index > 0 && types.Identical(ex.Type(), types.Universe.Lookup("error").Type()) {
+							errV = ex
+						}
+					}
+					fDer := di.Parent()
+					if tup, isT := dv.Type().(*types.Tuple); isT && tup.Len() >= 2 && types.Identical(tup.At(tup.Len()-1).Type(), types.Universe.Lookup("error").Type()) {
+						vt2 := newVtrack()
+						vt2.atomOK = func(f *ssa.Function, at Atom) bool {
+							if f != fDer || at.Op != token.EQL || errV == nil {
+								return false
+							}
+							return (at.X == errV && isNilConst(at.Y)) || (at.Y == errV && isNilConst(at.X))
+						}
+						c.Decide(errV != nil && vt2.fnOK(fDer), pfx+".6", fn, "derivation-succeeded", "acceptance only where the derivation returned no error", "a 'true' verdict is returned on a path where the derivation's error was not found nil: a failed derivation (empty expected string) accepts an empty code", w.InstrPos(di))
+					}
+				}
+			}
+		}
 		// the length test: on the way from the entry point to the comparison (in the comparing function or in a
 		// caller on the chain), before the call that leads on
 		okLen := false
